@@ -205,6 +205,16 @@ where R: LLLRing, for<'x> &'x R: LLLRingOps<R> {
             crate::verif::emit(|| crate::verif::Event::Step { site: "lll_hnf" });
             self.iterate();
         }
+
+        // the last row never appears as the pivot row of `reduce`; normalize it here.
+        if m > 0 { 
+            if let Some(j) = self.data.nz_col_in(m - 1) { 
+                let u = self.data.target[(m - 1, j)].normalizing_unit();
+                if !u.is_one() { 
+                    self.data.mul_row(m - 1, &u);
+                }
+            }
+        }
     }
 
     fn iterate(&mut self) { 
